@@ -330,6 +330,13 @@ class ExprMixin:
             return BytesV(as_bytes_parts(a) + as_bytes_parts(b))
         if name == 'add' and isinstance(a, ListV) and isinstance(b, ListV):
             return ListV(a.items + b.items, a.complete and b.complete)
+        if name == 'add' and isinstance(a, tuple) and isinstance(b, tuple):
+            return a + b
+        if name == 'add' and ((isinstance(a, tuple) and isinstance(b, ListV)) or (isinstance(a, ListV) and isinstance(b, tuple))):
+            # ``(x, ) + tuple(f(y) for y in ys)``: tuple() of a comprehension is kept as a list value
+            left, right = (list(a), b.items) if isinstance(a, tuple) else (a.items, list(b))
+            whole = (b if isinstance(b, ListV) else a).complete
+            return tuple(left + right) if whole else ListV(left + right, False)
         if name == 'add' and isinstance(a, ListV) and isinstance(b, (Sym, SelfV, Unknown, FieldV)):
             return ListV(a.items + [Sym('splat', b)], False)
         if is_const(a) and is_const(b) and a is not None and b is not None:
